@@ -4,7 +4,7 @@
 (* grouping finalises to the direct denotation.                                              *)
 EXTENDS Agg
 
-Doc(c, v, w, g) == [cat |-> c, v |-> v, w |-> w, f |-> w, d |-> <<>>, g |-> <<g>>]
+Doc(c, v, w, g) == [id |-> <<0>>, cat |-> c, v |-> v, w |-> w, f |-> w, d |-> <<>>, g |-> <<g>>]
 MCDocDomain == {
   Doc(<<0>>, <<1, 3>>, <<1>>, 1),
   Doc(<<1>>, <<-2>>, <<4>>, 1),
@@ -29,6 +29,9 @@ HistExt(f, i, off, lo, hi, sub) == [k |-> "histogram", field |-> f, interval |->
 HistHard(f, i, off, mdc, lo, hi, sub) == [k |-> "histogram", field |-> f, interval |-> i, offset |-> off, mdc |-> mdc, hard |-> [min |-> lo, max |-> hi], sub |-> sub]
 Filter(qf, qv, sub) == [k |-> "filter", qf |-> qf, qv |-> qv, sub |-> sub]
 CountDesc == Ord("count", FALSE, "", "")
+Pct(f, ps) == [k |-> "percentiles", field |-> f, percents |-> ps]
+TopHits(size, sort, dv) == [k |-> "top_hits", size |-> size, sort |-> sort, dv |-> dv]
+Composite(size, sources, sub) == [k |-> "composite", size |-> size, sources |-> sources, sub |-> sub]
 
 MCReqs == {
   << <<"s", M("stats", "v")>>, <<"a", MM("avg", "w", 2)>>, <<"m", M("min", "v")>>, <<"c", M("cardinality", "v")>> >>,
@@ -36,9 +39,17 @@ MCReqs == {
   << <<"t", TermsMiss("cat", 10, 0, Ord("sub", TRUE, "a", ""), -1, << <<"a", M("avg", "v")>> >>)>> >>,
   << <<"r", Range("w", << [to |-> 1], [from |-> 1, to |-> 5] >>, << <<"t", Terms("cat", 10, 1, Ord("key", TRUE, "", ""), <<>>)>> >>)>> >>,
   << <<"h", HistExt("w", 3, 1, -4, 9, << <<"x", M("max", "v")>> >>)>> >>,
-  << <<"f", Filter("g", 1, << <<"h", Hist("v", 2, 0, 1, << <<"c", M("value_count", "w")>> >>)>> >>)>> >>,
+  << <<"f", Filter("g", 1, << <<"h", Hist("w", 2, 0, 1, << <<"c", M("value_count", "v")>> >>)>> >>)>> >>,
   << <<"t", Terms("v", 10, 1, Ord("key", FALSE, "", ""), << <<"e", M("extended_stats", "w")>> >>)>>,
-     <<"h", HistHard("w", 2, 0, 0, 0, 5, <<>>)>> >> }
+     <<"h", HistHard("w", 2, 0, 0, 0, 5, <<>>)>> >>,
+  << <<"p", Pct("v", <<0, 50, 90, 100>>)>>,
+     <<"t", Terms("cat", 10, 1, CountDesc, << <<"th", TopHits(2, << <<"g", FALSE>>, <<"id", TRUE>> >>, <<"id", "w">>)>> >>)>> >>,
+  << <<"co", Composite(2, << <<"a", "cat", TRUE>>, <<"b", "w", FALSE>> >>, << <<"s", M("sum", "v")>> >>)>> >> }
+(* value-counting variant (finding F14 mirrored): bucket aggregations on the multi-valued field *)
+MCReqsV == {
+  << <<"r", Range("v", << [to |-> 1], [from |-> 1, to |-> 4] >>, << <<"t", Terms("cat", 10, 1, CountDesc, <<>>)>> >>)>> >>,
+  << <<"h", Hist("v", 2, 0, 0, << <<"s", M("sum", "w")>> >>)>> >>,
+  << <<"co", Composite(3, << <<"a", "cat", TRUE>>, <<"b", "v", TRUE>> >>, <<>>)>> >> }
 MCReqsSmall == {
   << <<"m", M("min", "v")>>, <<"t", Terms("cat", 2, 1, CountDesc, << <<"s", M("sum", "v")>> >>)>> >>,
   << <<"h", HistExt("w", 3, 1, -4, 9, << <<"x", M("max", "v")>> >>)>> >> }
